@@ -27,6 +27,10 @@ type convOutcome struct {
 	why                   string
 }
 
+// zeroTimeUnixSeconds: the instant 0001-01-01T00:00:00Z, for which time.Time.IsZero holds, counted in Unix seconds
+// (the host's documented value: 1969 years x 365 days + 477 leap days, times 86400, before the epoch).
+const zeroTimeUnixSeconds = -(1969*365 + 1969/4 - 1969/100 + 1969/400) * 86400
+
 func (h *vxHarness) runConvert(t1, t2 string) []convOutcome {
 	f := h.c.lookupMethod(h.mgrT, "Convert")
 	var outs []convOutcome
@@ -305,17 +309,48 @@ func (c *Ctx) convxRun() []*opsVerdict {
 			secs := append(counts(1), int64(1)<<53+1, -(int64(1)<<53 + 1), int64(9000000000000001), int64(1)<<62+1)
 			// the host's time.Unix on constants is a date-time that remembers its seconds (time.Unix(s, 0).Unix() == s for every s)
 			reUnix := regexp.MustCompile(`^time\.Unix\((-?[0-9]+),0\)$`)
+			// … and is an instant like any other: it is the zero time exactly for the seconds count of 0001-01-01T00:00:00Z,
+			// and two of them compare as their seconds counts do
+			unixSecs := func(a mv) (int64, bool) {
+				if sy, ok := a.(*mSym); ok {
+					if mm := reUnix.FindStringSubmatch(sy.name); mm != nil {
+						n, err := strconv.ParseInt(mm[1], 10, 64)
+						return n, err == nil
+					}
+				}
+				return 0, false
+			}
 			h.m.external = func(m *mach, fn *ssa.Function, args []mv) (mv, bool) {
-				if fnFullName(fn) == "time.Time.Unix" && len(args) == 1 {
-					if sy, ok := args[0].(*mSym); ok {
-						if mm := reUnix.FindStringSubmatch(sy.name); mm != nil {
-							n, err := strconv.ParseInt(mm[1], 10, 64)
-							return n, err == nil
-						}
+				name := fnFullName(fn)
+				if !strings.HasPrefix(name, "time.Time.") || len(args) == 0 {
+					return decimalNumerals(m, fn, args)
+				}
+				s0, ok := unixSecs(args[0])
+				if !ok {
+					return nil, false
+				}
+				if len(args) == 1 {
+					switch fn.Name() {
+					case "Unix":
+						return s0, true
+					case "IsZero":
+						return s0 == zeroTimeUnixSeconds, true
+					}
+					return nil, false
+				}
+				if s1, ok := unixSecs(args[1]); ok && len(args) == 2 {
+					switch fn.Name() {
+					case "Equal":
+						return s0 == s1, true
+					case "Before":
+						return s0 < s1, true
+					case "After":
+						return s0 > s1, true
 					}
 				}
 				return nil, false
 			}
+			secs = append(secs, int64(zeroTimeUnixSeconds), int64(zeroTimeUnixSeconds)+1, int64(zeroTimeUnixSeconds)-1, int64(-62135596800000))
 			chains := []struct {
 				t1, t2 string
 				vals   []interface{}
